@@ -234,6 +234,7 @@ type world struct {
 	poolLDB    db.Database // executed-transaction store of the harness-installed pool
 	g0, g1     content     // genesis content of shared / state store (the pool store starts empty)
 	genesis    *types.BlockHeader
+	pre018     bool   // regime of the history being built / run
 	progress   string // file that names the scenario under way (side process)
 	pal        *pvPalette
 	genesisLog []wrec // store writes of insertGenesisBlock at the first start, in order
@@ -347,8 +348,27 @@ func mkTx(hi, i int) *types.Transaction {
 		Data:   fmt.Sprintf("c05 history %d tx %d", hi, i),
 		Time:   "2020-01-01 00:00:00",
 	}
+	if i >= 5 {
+		// a transaction WITH an executor that fails in Execute (operator event with unparsable extra data,
+		// from a funded genesis account so that BeforeExecute passes): failed receipt, stays in the block;
+		// below the Proposal018 height the executor also lists it in the header's EvictedTxs
+		t.Type = types.TransactionTypeOperatorEvent
+		t.Source = "0x7edd0ef9da9cec334a7887966cc8dd71d590eeb7"
+		t.ExtraData = fmt.Sprintf("{not json %d %d", hi, i)
+	}
 	t.Hash = t.GenHash()
 	return t
+}
+
+// regime: dev config (every proposal from height 0) or pre-018 (failed transactions are kept in the
+// block body AND listed as evicted, as on mainnet below 55,959,500 / robin below 65,795,000)
+func (w *world) setRegime(pre018 bool) {
+	w.pre018 = pre018
+	if pre018 {
+		common.LocalChainConfig.Proposal018Block = 1 << 60
+	} else {
+		common.LocalChainConfig.Proposal018Block = 0
+	}
 }
 
 // Prove values are VRF outputs of up to 80 bytes. The generators think in small "levels"; every history
@@ -367,6 +387,7 @@ type pvPalette struct {
 }
 
 func (w *world) newPalette(r *hx.Rng) {
+	w.setRegime(false)
 	w.pal = &pvPalette{mode: r.Intn(5), base: new(big.Int).SetBytes(r.Bytes(70)), memo: map[int64]*big.Int{}, r: r.Fork()}
 }
 
@@ -425,6 +446,13 @@ func (w *world) build(parent *types.BlockHeader, height, qn uint64, pv int64, sa
 		bh.Transactions = append(bh.Transactions, common.Hashes{t.Hash, t.SubHash})
 	}
 	bh.TxTree = core.VerifBCTxTree(b.Transactions)
+	if w.pre018 {
+		for _, t := range b.Transactions {
+			if t.Type == types.TransactionTypeOperatorEvent {
+				bh.EvictedTxs = append(bh.EvictedTxs, t.Hash) // what the executor reports for a failed tx
+			}
+		}
+	}
 	bh.Hash = bh.GenHash()
 	return b
 }
@@ -442,6 +470,7 @@ type history struct {
 
 func (w *world) genHistory(r *hx.Rng, tier string, hi int) *history {
 	w.newPalette(r)
+	w.setRegime(r.Intn(3) == 0)
 	h := &history{byHash: map[common.Hash]int{}, txIdx: map[common.Hash]int{}}
 	h.blocks = append(h.blocks, &blk{hdr: w.genesis, parent: -1})
 	for i := 0; i < 8; i++ {
@@ -1494,7 +1523,11 @@ func (c *ctx) runHistory(r *hx.Rng, tier string, hi int) (string, interface{}) {
 			desc = append(desc, fmt.Sprintf("b%d{id%d pre=b%d h=%d tqn=%d pv=%s%s}", i, b.id, b.parent, b.hdr.Height, b.hdr.TotalQN, pvDesc(b), tx))
 		}
 	}
-	c.seq = fmt.Sprintf("seed-history %d: %s; deliver %v", hi, strings.Join(desc, " "), h.deliver)
+	regime := ""
+	if w.pre018 {
+		regime = " [pre-018 regime: failed transactions (ids 6-8) are in the body and in EvictedTxs]"
+	}
+	c.seq = fmt.Sprintf("seed-history %d%s: %s; deliver %v", hi, regime, strings.Join(desc, " "), h.deliver)
 	ch := core.GetBlockChain()
 	var ops []*opRec
 	opNo := 0
